@@ -183,9 +183,9 @@ def run(tier, seed):
         prog.append(('materialize', tid))
       elif u < 0.85:
         prog.append(('parameters', tid))
-      elif u < 0.89:
+      elif u < 0.875:
         prog.append(('optimal',))
-      elif u < 0.93:
+      elif u < 0.935:
         prog.append(('set_state', r.choice(['ACTIVE', 'ABORTED', 'COMPLETED', 'ACTIVE'])))
       elif u < 0.95:
         prog.append(('get_state',))
@@ -197,6 +197,10 @@ def run(tier, seed):
         prog.append(('get_config_md',))
       else:
         prog.append(('delete_study',))
+      # the same call once more (a call that changes nothing the second time must be answered alike everywhere)
+      if prog and prog[-1][0] in ('set_state', 'stop', 'complete', 'delete_trial', 'md_study', 'md_trial', 'get_state', 'add_measurement') \
+          and r.random() < (0.6 if prog[-1][0] == 'set_state' else 0.25):
+        prog.append(prog[-1])
     return prog
 
   nprog = 40 if tier == 'quick' else 150
